@@ -101,6 +101,9 @@ template<typename Shape_, typename Trafo_> struct TrafoCheck
         VF_CHECK(std::fabs(LD(td.hess_ten(i, a, b)) - H[i][a][b]) <= tolx, "hessian tensor entry (" << i << "," << a << "," << b << ") = " << td.hess_ten(i, a, b) << " but second derivative = " << double(H[i][a][b]) << " tol " << double(tolx));
       LD dt = CellGeo<Shape_>::det(Jm); LD dfac = 1; for(int k = 1; k < dim; ++k) dfac *= jmax * k;
       LD told = 4 * dim * dfac * tolx + 8 * u * std::fabs(dt);
+      // jac_det is the volume element (documented: "Jacobian determinant integrates to the cell volume"): for a reversed 1D cell
+      // (x_v0 > x_v1, the only negatively oriented cells the generator makes) it is |det J|
+      if(dim == 1 && dt < 0) dt = -dt;
       VF_CHECK(std::fabs(LD(td.jac_det) - dt) <= told, "jac_det = " << td.jac_det << " but det of the Jacobian = " << double(dt) << " tol " << double(told));
       VF_CHECK(td.jac_det > 0, "jac_det not positive on a positively oriented cell: " << td.jac_det);
       // J * J^-1 = I (residual bounded by cond(J) * rounding; the geometry classes keep cond(J) <= ~100)
